@@ -251,7 +251,18 @@ func (db *DB) NeedsTable(filePath string) bool {
 	return db.checkpoints.IncludesTable(filePath)
 }
 
+// Close is called when the instance stops being used. Table files are normally
+// deleted once their table objects become unreachable. The files of a closed
+// database stay: saved checkpoints reference them and this or another instance
+// may recover from those.
 func (db *DB) Close() error {
+	if db == nil {
+		return nil
+	}
+	db.mu.Lock()
+	defer db.mu.Unlock()
+	db.sstables.KeepFiles()
+	db.checkpoints.KeepFiles()
 	return nil
 }
 
